@@ -955,8 +955,10 @@ def canonical_forms(tree: ast.Module) -> tuple[int, int]:
     (1) `a, b = x, y` with plain names or attribute paths (`self.a`) on the left and a tuple display of the same length on the right is split into `a = x` / `b = y`
     when no later value mentions an earlier target and no later value contains a call (so evaluating it cannot observe the earlier binding
     through a closure) — x is evaluated before y either way;  (2) `not (a and b)` / `not (a or b)` is distributed to `not a or not b` /
-    `not a and not b` (same operands evaluated in the same order with the same short-circuit).  Returns (splits, distributions)."""
-    n_split = n_dist = 0
+    `not a and not b` (same operands evaluated in the same order with the same short-circuit);  (3) a simple statement (no suspension) that
+    ends every branch of an if/elif/else chain — each branch keeping at least one other statement — is written once after the chain.
+    Returns (splits, distributions); the number of sunk statements is left in ``canonical_forms.last_sunk``."""
+    n_split = n_dist = n_sunk = 0
     captured = {x.id for sc in ast.walk(tree) if isinstance(sc, (ast.Lambda, ast.GeneratorExp, ast.ListComp, ast.SetComp, ast.DictComp)) for x in ast.walk(sc) if isinstance(x, ast.Name)}
     fns = [f for f in ast.walk(tree) if isinstance(f, (ast.FunctionDef, ast.AsyncFunctionDef))]
     for f in fns:
@@ -998,8 +1000,18 @@ def canonical_forms(tree: ast.Module) -> tuple[int, int]:
         # an earlier value must not read a later target either (it would see the old binding in both forms — fine) — nothing to check
         return True
 
+    def leaves(if_node):
+        """the branch bodies of an if / elif / ... / else chain that ends in an else, or None"""
+        out_ = [if_node.body]
+        if not if_node.orelse:
+            return None
+        if len(if_node.orelse) == 1 and isinstance(if_node.orelse[0], ast.If):
+            rest = leaves(if_node.orelse[0])
+            return None if rest is None else out_ + rest
+        return out_ + [if_node.orelse]
+
     def block(b):
-        nonlocal n_split
+        nonlocal n_split, n_sunk
         out = []
         for st in b:
             for fld in ("body", "orelse", "finalbody"):
@@ -1010,6 +1022,26 @@ def canonical_forms(tree: ast.Module) -> tuple[int, int]:
                 h.body = block(h.body)
             for c_ in getattr(st, "cases", []) or []:
                 c_.body = block(c_.body)
+            if isinstance(st, ast.If):
+                # (3) a statement that ends *every* branch of an if/elif/else chain is executed after the chain whichever branch ran:
+                # written once after it (repeatedly, for several common trailing statements)
+                sunk = []
+                while True:
+                    lv = leaves(st)
+                    if lv is None or any(len(x) < 2 for x in lv):
+                        break
+                    last = lv[0][-1]
+                    if not isinstance(last, (ast.Expr, ast.Assign, ast.AugAssign, ast.AnnAssign, ast.Return, ast.Raise, ast.Continue, ast.Break)) \
+                            or any(isinstance(y, (ast.Yield, ast.YieldFrom, ast.Await)) for y in ast.walk(last)) \
+                            or any(ast.dump(x[-1]) != ast.dump(last) for x in lv[1:]):
+                        break
+                    for x in lv:
+                        x.pop()
+                    sunk.insert(0, last)
+                    n_sunk += 1
+                out.append(st)
+                out.extend(sunk)
+                continue
             if splittable(st):
                 n_split += 1
                 for t, v in zip(st.targets[0].elts, st.value.elts):
@@ -1021,6 +1053,7 @@ def canonical_forms(tree: ast.Module) -> tuple[int, int]:
     tree.body = block(tree.body)
     D().visit(tree)
     ast.fix_missing_locations(tree)
+    canonical_forms.last_sunk = n_sunk
     return n_split, n_dist
 
 
